@@ -18,5 +18,10 @@ fn main() {
     cfg!(r, d16, 1, i128);
     cfg!(r, d32, 3, BigRef);
     cfg!(r, d64, 2, BigRef);
+    // many-digit shapes: byte sizes that are not multiples of 8 / 16 (17, 22, 40 bytes), three 64-bit digits
+    cfg!(r, d8, 17, BigRef);
+    cfg!(r, d16, 11, BigRef);
+    cfg!(r, d32, 10, BigRef);
+    cfg!(r, d64, 3, BigRef);
     std::process::exit(run.finish());
 }
